@@ -155,7 +155,7 @@ def run(ctx):
                  kind=case["kind"], r=r, lc=case["lc"], scale_decade=int(np.log10(case["scale"])))
 
     # (b) real fits
-    nfit = 40 if ctx.thorough else 8
+    nfit = 40 if ctx.thorough else 10
     pending = []
     for t in range(nfit):
         n = int(rng.integers(12, 40))
@@ -169,8 +169,14 @@ def run(ctx):
         k = int(rng.integers(3, 9))
         r = float(rng.choice([0.0, 0.5, 1.0]))
         lc = float(rng.choice([1.0, 1.0, 2.0]))
-        form = str(rng.choice(["dense", "csr", "precomputed"]))
+        # every route into fuzzy_simplicial_set: exact small-data path (dense / CSR / precomputed distances), the
+        # approximate-neighbour path (forced) and a user-supplied kNN table; quick tier cycles so each is hit
+        forms = ["dense", "csr", "precomputed", "dense-approx", "knn"]
+        form = forms[t % len(forms)] if t < 2 * len(forms) else str(rng.choice(forms))
         metric = str(rng.choice(["euclidean", "manhattan", "cosine"]))
+        if form in ("dense-approx", "knn"):
+            # the parameters that are easy to mix up downstream: make them differ
+            r, lc = float(rng.choice([0.0, 0.25, 0.5])), float(rng.choice([1.0, 2.0]))
         D = pairwise_distances(X.astype(np.float64), metric=metric)
         np.fill_diagonal(D, 0.0)
         flat = np.sort(D[np.triu_indices(n, 1)])
@@ -187,6 +193,12 @@ def run(ctx):
                     m = umap.UMAP(metric=metric, **kw).fit(X)
                 elif form == "csr":
                     m = umap.UMAP(metric=metric, **kw).fit(scipy.sparse.csr_matrix(X))
+                elif form == "dense-approx":
+                    m = umap.UMAP(metric=metric, force_approximation_algorithm=True, **kw).fit(X)
+                elif form == "knn":
+                    D32 = D.astype(np.float32)
+                    kidx, kdist = gen.exact_knn(D32, k)
+                    m = umap.UMAP(metric=metric, precomputed_knn=(kidx, kdist.astype(np.float32), None), **kw).fit(X)
                 else:
                     m = umap.UMAP(metric="precomputed", **kw).fit(D.astype(np.float32))
         except Exception as e:  # noqa
